@@ -916,18 +916,22 @@ func findingKey(d dagx.DAG, q query) string {
 			}
 			return "ff:false-negative:noshallow"
 		}
-		// shallow variants: compare with a model of the KNOWN defective mechanism (parents of every shallow
-		// commit are pre-marked as seen, so they are never visited, not even as the start commit or through
-		// another path; reaching a shallow commit without finding old answers "fast-forward"). Only answers
-		// that this mechanism explains exactly fall under the two known keys.
-		if knownShallowMechanism(d, q.Args[0], q.Args[1], listToMask(q.Shallow)) == (q.Got[0] == 1) {
-			if q.Got[0] == 1 {
+		// shallow variants.
+		// (a) go-git says fast-forward, git does not: the documented "assume fast-forward once history is
+		//     truncated" behaviour can only apply when a shallow commit lies in the (full) history of new;
+		//     anything else is a different defect.
+		// (b) go-git refuses, git says ancestor: only answers that the known mechanism (parents of every shallow
+		//     commit pre-marked as seen, so never visited, not even as start commit or through another path)
+		//     explains fall under the known key.
+		shallowMask := listToMask(q.Shallow)
+		if q.Got[0] == 1 {
+			if dagx.Anc(d.Parents)[q.Args[1]]&shallowMask != 0 {
 				return "ff-shallow:assumed-ff-when-walk-reaches-shallow-commit"
 			}
-			return "ff-shallow:parents-of-shallow-commits-never-visited"
+			return "ff-shallow:false-positive-without-shallow-commit-in-history"
 		}
-		if q.Got[0] == 1 {
-			return "ff-shallow:false-positive-unexplained"
+		if !knownShallowMechanism(d, q.Args[0], q.Args[1], shallowMask) {
+			return "ff-shallow:parents-of-shallow-commits-never-visited"
 		}
 		return "ff-shallow:false-negative-unexplained"
 	}
